@@ -35,6 +35,7 @@ inductive RspMeaning where
   | writeMultipleCoils (addr qty : UInt16)
   | writeMultipleRegisters (addr qty : UInt16)
   | readWriteMultipleRegisters (words : List UInt16)
+  | readExceptionStatus (status : UInt8)
   | custom (code : UInt8) (data : List UInt8)
   deriving Repr, DecidableEq
 
@@ -67,6 +68,7 @@ def rspBytes : RspMeaning → List UInt8
   | .writeMultipleCoils a q => 0x0F :: (word a ++ word q)
   | .writeMultipleRegisters a q => 0x10 :: (word a ++ word q)
   | .readWriteMultipleRegisters ws => 0x17 :: UInt8.ofNat (2 * ws.length) :: wordsBE ws
+  | .readExceptionStatus s => [0x07, s]
   | .custom c d => c :: d
 
 /-- §7: exception response = function code with the top bit set, then the exception code -/
